@@ -5,7 +5,7 @@ From Coq Require Import ZArith Bool List.
 Import ListNotations.
 From Verif Require Import Model.Val Gen.Src_Task Gen.Src_TaskGraph Model.TaskGraph
   Proofs.TaskGraphP Proofs.TaskGraphP1 Proofs.TaskGraphP2 Proofs.TaskGraphP3 Proofs.TaskGraphP5
-  Proofs.TaskGraphP6 Proofs.TaskGraphP7.
+  Proofs.TaskGraphP6 Proofs.TaskGraphP7 Proofs.TaskGraphP8.
 Open Scope Z_scope.
 
 (* no starvation: a RELEASED task whose release time has arrived (within the lookahead) is offered *)
@@ -78,6 +78,73 @@ Theorem C18_ready_to_run : forall terminal sts s,
   (s = TS_SCHEDULED \/ s = TS_PREEMPTED).
 Proof. exact ready_spec. Qed.
 Print Assumptions C18_ready_to_run.
+
+(* a policy that does not plan ahead (lookahead 0, no retraction, no release_taskgraphs) is never offered a
+   VIRTUAL task with an unfinished parent -- in the states described by frontier_sane (Model/TaskGraph.v):
+   every runtime positive, RUNNING / PREEMPTED tasks have time left, SCHEDULED tasks complete in the future,
+   no conditional task, and every VIRTUAL task with an unfinished parent hangs (hereditarily) below a task
+   that is RELEASED / SCHEDULED / RUNNING / PREEMPTED *)
+Theorem C18_no_plan_ahead : forall g o draws fr d' x, tg_schedulable g o draws = Ok (fr, d') ->
+  so_lookahead o = 0 -> so_retract o = false -> so_release_tg o = false -> so_placed o = None ->
+  frontier_sane g (so_time o) = true ->
+  In x fr -> tg_state g x = TS_VIRTUAL -> forall p, In p (tg_parents g x) -> tg_complete g p = true.
+Proof. exact frontier_no_plan_ahead. Qed.
+Print Assumptions C18_no_plan_ahead.
+
+(* the side conditions are needed: the unrestricted statement is false of the code *)
+Definition unrestricted_no_plan_ahead : Prop :=
+  forall g o draws fr d' x, tg_schedulable g o draws = Ok (fr, d') ->
+  so_lookahead o = 0 -> so_retract o = false -> so_release_tg o = false -> so_placed o = None ->
+  In x fr -> tg_state g x = TS_VIRTUAL -> forall p, In p (tg_parents g x) -> tg_complete g p = true.
+(* (1) a RELEASED parent with runtime 0 (the task of finding F8): its child is offered at once *)
+Definition c18_zero : tgraph :=
+  mkTG [(1, [2]); (2, [])]
+       [(1, mk_ttask TS_RELEASED 0 100 0 (-1) 16 false false (-1) [0]);
+        (2, mk_ttask TS_VIRTUAL (-1) 100 0 (-1) 16 false false (-1) [3])] 16.
+Theorem C18_no_plan_ahead_zero_runtime_refuted : ~ unrestricted_no_plan_ahead.
+Proof.
+  intro H. specialize (H c18_zero (mkSO 5 0 false false None ALL false) [] [1; 2] [] 2).
+  assert (A : tg_complete c18_zero 1 = true); [|vm_compute in A; discriminate].
+  apply H; try reflexivity; vm_compute; auto.
+Qed.
+Print Assumptions C18_no_plan_ahead_zero_runtime_refuted.
+(* (2) a SCHEDULED parent whose planned completion is already in the past *)
+Definition c18_overdue : tgraph :=
+  mkTG [(1, [2]); (2, [])]
+       [(1, mk_ttask TS_SCHEDULED 0 100 2 (-1) 16 false false 1 [2]);
+        (2, mk_ttask TS_VIRTUAL (-1) 100 0 (-1) 16 false false (-1) [3])] 16.
+Theorem C18_no_plan_ahead_overdue_refuted : ~ unrestricted_no_plan_ahead.
+Proof.
+  intro H. specialize (H c18_overdue (mkSO 5 0 false false None ALL false) [] [2] [] 2).
+  assert (A : tg_complete c18_overdue 1 = true); [|vm_compute in A; discriminate].
+  apply H; try reflexivity; vm_compute; auto.
+Qed.
+Print Assumptions C18_no_plan_ahead_overdue_refuted.
+(* (3) a second parent that is still VIRTUAL and has no estimate (an unreleased source): only the
+   completed parent is looked at *)
+Definition c18_sibling : tgraph :=
+  mkTG [(1, [3]); (2, [3]); (3, [])]
+       [(1, mk_ttask TS_COMPLETED 0 100 0 2 16 false false (-1) [2]);
+        (2, mk_ttask TS_VIRTUAL 50 100 0 (-1) 16 false false (-1) [2]);
+        (3, mk_ttask TS_VIRTUAL (-1) 100 0 (-1) 16 false false (-1) [3])] 16.
+Theorem C18_no_plan_ahead_unreleased_parent_refuted : ~ unrestricted_no_plan_ahead.
+Proof.
+  intro H. specialize (H c18_sibling (mkSO 5 0 false false None ALL false) [] [3] [] 3).
+  assert (A : tg_complete c18_sibling 2 = true); [|vm_compute in A; discriminate].
+  apply H; try reflexivity; vm_compute; auto.
+Qed.
+Print Assumptions C18_no_plan_ahead_unreleased_parent_refuted.
+(* the side conditions are satisfiable with a VIRTUAL task that IS offered (all its parents complete) *)
+Definition c18_sane : tgraph :=
+  mkTG [(1, [2; 3]); (2, [4]); (3, [4]); (4, [])]
+       [(1, mk_ttask TS_COMPLETED 0 100 0 2 16 false false (-1) [2]);
+        (2, mk_ttask TS_VIRTUAL (-1) 100 0 (-1) 16 false false (-1) [2]);
+        (3, mk_ttask TS_RUNNING (-1) 100 3 (-1) 16 false false (-1) [4]);
+        (4, mk_ttask TS_VIRTUAL (-1) 100 0 (-1) 16 false false (-1) [3])] 16.
+Example C18_no_plan_ahead_example :
+  frontier_sane c18_sane 5 = true /\
+  tg_schedulable c18_sane (mkSO 5 0 false false None ALL false) [] = Ok ([2], []).
+Proof. split; vm_compute; reflexivity. Qed.
 
 (* ---- non-vacuity: A (RELEASED, release 3) -> B (VIRTUAL), time 5: A is offered, B is not ---- *)
 Definition c18_g : tgraph :=
